@@ -578,12 +578,12 @@ fn strace_group(run: &mut Run, group: &str) {
 }
 
 fn main() {
-    let mut run = Run::from_args("C28", "fault_enumeration");
+    let mut run = Run::from_args("C28", "exploration");
     report::quiet_panics();
 
     if let Some(i) = std::env::args().position(|a| a == "--strace-child") {
         let port: Option<u16> = std::env::args().nth(i + 1).and_then(|p| p.parse().ok()).filter(|p| *p != 0);
-        let mut sink = Run::from_args("C28", "fault_enumeration");
+        let mut sink = Run::from_args("C28", "exploration");
         let list = build_assets(&mut sink);
         let group = std::env::args().nth(i + 2).unwrap_or_else(|| "main".into());
         child_main(&list, port, &group);
